@@ -59,3 +59,23 @@ using namespace UsingB;
 __begin_publish
 size_type using_g(size_type n);
 __end_publish
+
+// Several overloads of a kind behind the buffer protocol slots.
+struct BufTwoConst {
+__published:
+  BufTwoConst();
+  int __getbuffer__(Py_buffer *view, int flags) const;
+  int __getbuffer__(Py_buffer *view, int flags, int extra) const;
+  void __releasebuffer__(Py_buffer *view) const;
+  void __releasebuffer__(Py_buffer *view, int extra) const;
+};
+struct BufMixed {
+__published:
+  BufMixed();
+  int __getbuffer__(PyObject *self, Py_buffer *view, int flags);
+  int __getbuffer__(PyObject *self, Py_buffer *view, int flags) const;
+  int __getbuffer__(Py_buffer *view, int flags, int extra);
+  void __releasebuffer__(PyObject *self, Py_buffer *view);
+  void __releasebuffer__(PyObject *self, Py_buffer *view) const;
+  void __releasebuffer__(Py_buffer *view, int extra);
+};
